@@ -512,6 +512,46 @@ class CFG:
                 dq.append(d)
         return None
 
+    def find_path_budget(self, starts, goal, avoid=(), budget=1, is_fault=None, flow_ok=None):
+        """Shortest path from `starts` to goal(n) that avoids node ids in `avoid` and takes at most `budget`
+        fault edges (is_fault(e)); every other edge must satisfy flow_ok(e) or be a propagation edge."""
+        from collections import deque
+        is_fault = is_fault or (lambda e: e.kind == 'async' or (e.kind == 'exc' and e.cause == 'e3'))
+        flow_ok = flow_ok or is_flow
+        prev = {}
+        dq = deque()
+        for s in starts:
+            if s.id in avoid:
+                continue
+            prev[(s.id, 0)] = None
+            dq.append((s, 0))
+        while dq:
+            n, used = dq.popleft()
+            if goal(n):
+                path = []
+                cur = (n.id, used)
+                while prev[cur] is not None:
+                    e, pu = prev[cur]
+                    path.append(e)
+                    cur = (e.src.id, pu)
+                return list(reversed(path))
+            for e in n.succ:
+                nu = used
+                if is_fault(e):
+                    nu = used + 1
+                    if nu > budget:
+                        continue
+                elif not (e.kind == 'reraise' or flow_ok(e)):
+                    continue
+                d = e.dst
+                if d.id in avoid and not goal(d):
+                    continue
+                if (d.id, nu) in prev:
+                    continue
+                prev[(d.id, nu)] = (e, used)
+                dq.append((d, nu))
+        return None
+
     def exits(self):
         return [self.exit] + list(self.raise_exits.values())
 
